@@ -230,6 +230,7 @@ impl C09 {
         ls.compare = Compare::Off;
         ls.check_cost = true;
         ls.lenient = true;
+        ls.check_reset = false;
         let mut mon = WordMon::new(&ls.sut);
         let label = |e: Violation| -> Violation {
             let mut e = e;
